@@ -60,6 +60,15 @@ func (e *env) ibcRecvCases() []string {
 		{name: "hook:alias-voucher", denom: "ualias", amt: "10", receiver: hexU, parseOK: true, transferOK: true, hookOK: false},
 		{name: "hook:unregistered", denom: "uother", amt: "10", receiver: hexU, parseOK: true, transferOK: true, hookOK: false},
 		{name: "hook:pair-disabled", denom: "uown", amt: "10", receiver: hexU, disableOwn: true, parseOK: true, transferOK: true, hookOK: false},
+		// the conversion fails AFTER the transfer module credited, and a memo follows whose own handling succeeds (or fails)
+		{name: "hook:pair-disabled+memo-text", denom: "uown", amt: "10", receiver: hexU, memo: "thanks", disableOwn: true, parseOK: true, transferOK: true, hookOK: false},
+		{name: "hook:pair-disabled+memo-json-no-type", denom: "uown", amt: "10", receiver: hexU, memo: `{"to":"0x01","data":""}`, disableOwn: true, parseOK: true, transferOK: true, hookOK: false},
+		{name: "hook:pair-disabled+memo-call-ok", denom: "uown", amt: "10", receiver: hexU, memo: call(e.cWriteStop.Hex()), disableOwn: true, parseOK: true, transferOK: true, hookOK: false},
+		{name: "hook:pair-disabled+memo-call-revert", denom: "uown", amt: "10", receiver: hexU, memo: call(e.cWriteRevert.Hex()), disableOwn: true, parseOK: true, transferOK: true, hookOK: false},
+		{name: "hook:alias-voucher+memo-text", denom: "ualias", amt: "10", receiver: hexU, memo: "thanks", parseOK: true, transferOK: true, hookOK: false},
+		{name: "hook:unregistered+memo-call-ok", denom: "uother", amt: "10", receiver: hexU, memo: call(e.cWriteStop.Hex()), parseOK: true, transferOK: true, hookOK: false},
+		{name: "hook:fx-named-foreign", denom: fxtypes.DefaultDenom, amt: "10", receiver: hexU, parseOK: true, transferOK: true, hookOK: false},
+		{name: "hook:fx-named-multihop", denom: port + "/channel-55/" + fxtypes.DefaultDenom, amt: "10", receiver: hexU, memo: "thanks", parseOK: true, transferOK: true, hookOK: false},
 		{name: "hook:memo-bad-to", denom: "uown", amt: "10", receiver: hexU, memo: call("0x12"), parseOK: true, transferOK: true, hookOK: false},
 		{name: "hook:memo-revert", denom: "uown", amt: "10", receiver: hexU, memo: call(e.cRevert.Hex()), parseOK: true, transferOK: true, hookOK: false},
 		{name: "hook:memo-write-revert", denom: "uown", amt: "10", receiver: hexU, memo: call(e.cWriteRevert.Hex()), parseOK: true, transferOK: true, hookOK: false},
